@@ -145,6 +145,12 @@ def run(ctx):
                 spec['terminals'][name] = [[v, repr(float(p) / tot)] for v, p in srt]
             tot = sum(float(p) for _, p in spec['grammar'])
             spec['grammar'] = [[s, repr(float(p) / tot)] for s, p in spec['grammar']]
+        if i == 1:
+            # whatever the seed: neighbouring groups whose probabilities are different numbers within one part in a million / a thousand
+            # million of each other: each is a group of its own, with its own interval of draws
+            spec = {'terminals': {'D1': [['1', '0.3999999'], ['2', '0.2000001'], ['3', '0.2'], ['4', '0.1'], ['5', '0.1']],
+                                  'A2': [['ab', '0.5000000001'], ['cd', '0.4999999999']], 'C2': [['LL', '0.6'], ['UL', '0.4']]},
+                    'grammar': [['D1', '0.6'], ['A2D1', '0.4']], 'omen_prob': [], 'prince': [], 'mode': 'near', 'encoding': 'utf-8', 'omen': om}
         d = common.write_ruleset(os.path.join(root, f"h{i % 10}"), spec)
         # every third ruleset is loaded the way `--all_lower` loads it: the honeyword distribution is then that of the ruleset with
         # every capitalisation list replaced by the single all-lower mask
